@@ -53,7 +53,9 @@ pub fn run(o: &Opts) -> Report {
                         if let Some(mt) = &m {
                             let hit: Vec<String> = mt.ids().map(|i| i.to_string()).filter(|i| mt.value_source(i) == Some(clap::parser::ValueSource::CommandLine)).collect();
                             rep.oracle_fail("ambiguous-prefix-silently-resolved", &req, &format!("--{p} (candidates {:?}) resolved to {:?}", owners, hit));
-                        } else if let Some(er) = &e { if matches!(er.kind(), ErrorKind::DisplayHelp | ErrorKind::DisplayVersion) { rep.oracle_fail("ambiguous-prefix-silently-resolved", &req, &format!("--{p} resolved to help/version")); } }
+                        } else if let Some(er) = &e { if matches!(er.kind(), ErrorKind::DisplayHelp | ErrorKind::DisplayVersion) { rep.oracle_fail("ambiguous-prefix-silently-resolved", &req, &format!("--{p} resolved to help/version")); }
+                            // any complaint other than `unknown argument` (a missing value, a wrong count ...) means one candidate was picked
+                            else if !matches!(er.kind(), ErrorKind::UnknownArgument) { rep.oracle_fail("ambiguous-prefix-silently-resolved", &req, &format!("--{p} (candidates {:?}) was taken for one of them: {:?}", owners, er.kind())); } }
                         rep.case(&req, true); rep.count("ambiguous_prefix");
                         reqs.push(req); impls.push(c);
                         let _ = id;
